@@ -118,7 +118,12 @@ Fixpoint run (dofs : ep -> bool) (max : nat) (s : state) (ls : list label) : opt
 (* ---- the schedule controller of the harness, as label sequences ----
    after every operation the harness waits until no queued request can be
    admitted any more; so each operation is followed by as many LAdmit as fit *)
-Inductive op := OArrive (e : ep) | OCancel (e : ep) | OCancelNone | OFinish | OFinishNone.
+Inductive op :=
+| OArrive (e : ep)
+| OArriveDead (e : ep)   (* arrives with an already cancelled context and Start chose ctx.Done *)
+| OCancel (e : ep) | OCancelNone
+| OFinish | OFinishNone. (* OFinish also covers a client that gives up inside the write path: the
+                            handler leaves through an error return and its deferred Done runs *)
 
 Definition admits (max : nat) (s : state) : list label :=
   repeat LAdmit (Nat.min (waiting s) (max - tokens s)).
@@ -126,6 +131,7 @@ Definition admits (max : nat) (s : state) : list label :=
 Definition op_labels (o : op) : list label :=
   match o with
   | OArrive e => [LArrive e]
+  | OArriveDead e => [LArrive e; LCancel e]
   | OCancel e => [LCancel e]
   | OFinish => [LFinish; LRelease]
   | OCancelNone | OFinishNone => []
